@@ -42,10 +42,12 @@ import (
 var c13bn = pairing.NewSuiteBn256()
 
 type c13key struct {
-	ed  bool
-	raw []byte
-	pt  kyber.Point
+	kind byte // 'e' Ed25519, 'p' P256, 'b' bn256.G1, 'g' bn256.G2 (text form not modelled: rosters only)
+	raw  []byte
+	pt   kyber.Point
 }
+
+var c13p256 = suites.MustFind("P256")
 
 type c13obj struct {
 	kind  string // roster | tree | token | proto | service
@@ -63,11 +65,22 @@ type c13tnode struct {
 	kids []*c13tnode
 }
 
-func c13point(ed bool, raw []byte) (kyber.Point, error) {
+func c13point(kind byte, raw []byte) (kyber.Point, error) {
 	var p kyber.Point
-	if ed {
+	switch kind {
+	case 'e':
 		p = fix.Suite.Point()
-	} else {
+	case 'p':
+		if len(raw) != 65 || raw[0] != 4 {
+			return nil, fmt.Errorf("not an uncompressed P256 point")
+		}
+		p = c13p256.Point()
+	case 'b':
+		if len(raw) != 64 {
+			return nil, fmt.Errorf("not a bn256.G1 point")
+		}
+		p = c13bn.G1().Point()
+	default:
 		p = c13bn.G2().Point()
 	}
 	if err := p.UnmarshalBinary(raw); err != nil {
@@ -78,7 +91,7 @@ func c13point(ed bool, raw []byte) (kyber.Point, error) {
 
 func c13si(k c13key, port int) *network.ServerIdentity {
 	// a fresh point every time: the id may depend on the key's value only
-	p, _ := c13point(k.ed, k.raw)
+	p, _ := c13point(k.kind, k.raw)
 	return network.NewServerIdentity(p, network.NewLocalAddress(fmt.Sprintf("127.0.0.1:%d", 2000+port)))
 }
 
@@ -186,9 +199,9 @@ func c13exec(c *h.Ctx, cs *h.Case) {
 	mkSI := func(m []int, port int) *network.ServerIdentity {
 		si := c13si(keys[m[0]], port)
 		for j, s := range m[1:] {
-			p, _ := c13point(keys[s].ed, keys[s].raw)
-			suite := "Ed25519"
-			if !keys[s].ed {
+			p, _ := c13point(keys[s].kind, keys[s].raw)
+			suite := map[byte]string{'e': "Ed25519", 'p': "P256", 'b': "bn256.G1"}[keys[s].kind]
+			if suite == "" {
 				suite = c13bn.String()
 			}
 			si.ServiceIdentities = append(si.ServiceIdentities,
@@ -205,6 +218,23 @@ func c13exec(c *h.Ctx, cs *h.Case) {
 			sis = append(sis, si)
 		}
 		return onet.NewRoster(sis)
+	}
+	// the server keys of a roster belong to one suite (NewRoster adds them up)
+	var rosterKind byte
+	oneKind := func(ms [][]int, want byte) bool {
+		k := keys[ms[0][0]].kind
+		for _, m := range ms {
+			if keys[m[0]].kind != k {
+				return false
+			}
+		}
+		if want != 0 && want != k {
+			return false
+		}
+		if want == 0 {
+			rosterKind = k
+		}
+		return true
 	}
 	parseMembers := func(toks []string) ([][]int, bool) {
 		var ms [][]int
@@ -288,7 +318,7 @@ func c13exec(c *h.Ctx, cs *h.Case) {
 			var ks []c13key
 			ok := len(tk) > 2
 			for _, s := range tk[2:] {
-				if len(s) < 3 || (s[0] != 'e' && s[0] != 'g') {
+				if len(s) < 3 || !strings.ContainsRune("egpb", rune(s[0])) {
 					ok = false
 					break
 				}
@@ -297,12 +327,12 @@ func c13exec(c *h.Ctx, cs *h.Case) {
 					ok = false
 					break
 				}
-				p, err := c13point(s[0] == 'e', raw)
+				p, err := c13point(s[0], raw)
 				if err != nil {
 					ok = false
 					break
 				}
-				ks = append(ks, c13key{s[0] == 'e', raw, p})
+				ks = append(ks, c13key{s[0], raw, p})
 			}
 			if !ok {
 				bad()
@@ -312,7 +342,7 @@ func c13exec(c *h.Ctx, cs *h.Case) {
 			var out []string
 			sids, nids := map[string]string{}, map[string]string{}
 			for i, k := range keys {
-				if !k.ed {
+				if k.kind == 'g' {
 					out = append(out, "-")
 					continue
 				}
@@ -338,7 +368,7 @@ func c13exec(c *h.Ctx, cs *h.Case) {
 			cs.Impl = append(cs.Impl, strings.Join(out, " "))
 		case "roster":
 			ms, ok := parseMembers(tk[2:])
-			if !ok {
+			if !ok || !oneKind(ms, 0) {
 				bad()
 				continue
 			}
@@ -351,7 +381,7 @@ func c13exec(c *h.Ctx, cs *h.Case) {
 			recordRoster("roster")
 		case "concat":
 			ms, ok := parseMembers(tk[2:])
-			if !ok || roster == nil {
+			if !ok || roster == nil || !oneKind(ms, rosterKind) {
 				bad()
 				continue
 			}
@@ -1370,6 +1400,38 @@ func c13gen(c *h.Ctx, yield func(*h.Case)) {
 		ops = append(ops, fmt.Sprintf("c13 rotate %d", n), "c13 rotate 1", "c13 tree 0:1,1:0", "c13 rotate 0")
 		emit("rotations", ops...)
 	}
+	// --- keys of other suites (P256: text form (X,Y) in decimal; bn256.G1: hex pair): server and node ids,
+	// rosters and trees over them ---------------------------------------------------------------------
+	for i := 0; i < c.Pick(40, 600); i++ {
+		kind := "pb"[i%2]
+		n := 2 + r.Intn(5)
+		var ks []string
+		for j := 0; j < n; j++ {
+			b := make([]byte, 32)
+			r.Read(b)
+			var raw []byte
+			if kind == 'p' {
+				raw, _ = c13p256.Point().Mul(c13p256.Scalar().SetBytes(b), nil).MarshalBinary()
+			} else {
+				raw, _ = c13bn.G1().Point().Mul(c13bn.G1().Scalar().SetBytes(b), nil).MarshalBinary()
+			}
+			ks = append(ks, string(kind)+hex.EncodeToString(raw))
+		}
+		ops := []string{"c13 keys " + strings.Join(ks, " "), idRoster(n)}
+		shapes := c13trees(n, memo)
+		for j := 0; j < 4; j++ {
+			ops = append(ops, c13treeOp(shapes[r.Intn(len(shapes))], r.Perm(n)))
+		}
+		ops = append(ops, fmt.Sprintf("c13 rotate %d", 1+r.Intn(n-1)), c13treeOp(shapes[r.Intn(len(shapes))], r.Perm(n)), "c13 withroot "+strconv.Itoa(r.Intn(n)))
+		class := "suite-keys " + map[byte]string{'p': "P256", 'b': "bn256.G1"}[kind]
+		if i%10 == 0 {
+			class += " xproc"
+		}
+		emit(class, ops...)
+	}
+	// a roster needs server keys of one suite
+	emit("malformed", edKeys(1), "c13 keys p00", "c13 keys b0011", "c13 keys "+c13kR+" p046b17d1f2e12c4247f8bce6e563a440f277037d812deb33a0f4a13945d898c2964fe342e2fe1a7f9b8ee7eb4a7c0f9e162bce33576b315ececbb6406837bf51f5",
+		"c13 roster 0 1", "c13 roster 1", "c13 concat 0", "c13 roster 0", "c13 concat 1")
 	// --- malformed stream: both sides must refuse, not guess ------------------------------------
 	emit("malformed", "c13 keys", "c13 keys e00zz", "c13 roster 0", edKeys(2), "c13 roster 0 5", "c13 tree 0:0", idRoster(2),
 		"c13 tree 0:1", "c13 tree 0:1,1:0,1:0", "c13 tree 0:1,7:0", "c13 tree 0-1", "c13 token 00 00 00 00 00 00",
